@@ -123,6 +123,8 @@ pub struct GroupRec {
     pub replay_diverged: bool,
     pub kill_fired: Option<String>,
     pub sc_count: u64,
+    pub wake_count: u64,
+    pub stall_fired: Option<String>,
     /// bytes left in the make-style jobserver pipe of each command that had one
     pub make_left: Vec<Option<u32>>,
     pub deadlock_report: String,
@@ -260,6 +262,11 @@ pub struct PlayOpts {
     /// state-changing yields of redo processes (C10)
     #[serde(default)]
     pub kill_scripts: bool,
+    /// wake-up plan: (history index of the group, k-th ready select/poll
+    /// wake-up of a redo process): hold that process back until nothing else
+    /// can run (C09/C08: everything that can coincide in one wake-up does)
+    #[serde(default)]
+    pub stall_at: Option<(usize, u64)>,
 }
 
 fn set_mtime(path: &Path, ns: u64) {
@@ -311,6 +318,22 @@ pub fn snapshot(root: &Path) -> BTreeMap<String, FileSnap> {
                 Err(_) => continue,
             };
             if md.file_type().is_symlink() {
+                // a link to a directory is part of the scenario's layout; any
+                // other link (to a file, or dangling) is a file of the project
+                if std::fs::metadata(&p).map_or(false, |m| m.is_dir()) {
+                    continue;
+                }
+                let dest = std::fs::read_link(&p)
+                    .map(|d| d.to_string_lossy().into_owned())
+                    .unwrap_or_default();
+                out.insert(
+                    rel,
+                    FileSnap {
+                        bytes: crate::dsl::symlink_bytes(&dest),
+                        ino: md.ino(),
+                        mtime_ns: md.mtime() as i128 * 1_000_000_000 + md.mtime_nsec() as i128,
+                    },
+                );
                 continue;
             }
             if md.is_dir() {
@@ -526,6 +549,11 @@ fn play_group(
             sim.kill_scripts = opts.kill_scripts;
         }
     }
+    if let Some((g, k)) = opts.stall_at {
+        if g == idx {
+            sim.stall_at = Some(k);
+        }
+    }
     // jobserver pipes for commands that run under a simulated make
     let mut make_pipes: Vec<Option<(i32, i32)>> = Vec::new();
     for c in cmds {
@@ -714,6 +742,8 @@ fn play_group(
         replay_diverged: sim.replay_diverged,
         kill_fired: sim.kill_fired.clone(),
         sc_count: sim.sc_count,
+        wake_count: sim.wake_count,
+        stall_fired: sim.stall_fired.clone(),
         make_left,
         deadlock_report,
     };
